@@ -16,8 +16,8 @@
 use std::io;
 use std::path::{Path, PathBuf};
 
-pub const MAX_FILES: usize = 8;
-pub const MAX_DIRS: usize = 8;
+pub const MAX_FILES: usize = 6;
+pub const MAX_DIRS: usize = 6;
 pub const FILE_CAP: usize = 384;
 
 /// A path as six little-endian words (48 bytes, zero padded) plus its length: comparing two keys is
@@ -132,19 +132,26 @@ pub struct Fs {
     /// when set, any file-system access is reported as a failure (harnesses whose scenario must
     /// not touch the disk use it to cut the exploration of I/O code behind unfoldable branches)
     pub forbidden: bool,
+    /// strict mode: a condition that would make the model return an I/O error that the harness did
+    /// NOT inject (file not found, read past the end, crashed process) is reported as a failure
+    /// instead. In harnesses without such errors this removes every `io::Error` value from the
+    /// explored program: their drop glue (tagged-pointer repr, `Box<dyn Error>`) is what makes error
+    /// propagation paths explode under CBMC.
+    pub strict: bool,
 }
 
 pub static mut FS: Fs = Fs {
     files: [
         FileSlot::empty(), FileSlot::empty(), FileSlot::empty(), FileSlot::empty(),
-        FileSlot::empty(), FileSlot::empty(), FileSlot::empty(), FileSlot::empty(),
+        FileSlot::empty(), FileSlot::empty(),
     ],
-    dirs: [None, None, None, None, None, None, None, None],
+    dirs: [None, None, None, None, None, None],
     ops: 0,
     fail_at: None,
     tear_at: None,
     crashed: false,
     forbidden: false,
+    strict: false,
 };
 
 pub fn fs() -> &'static mut Fs {
@@ -161,7 +168,21 @@ pub fn forbid(on: bool) {
 }
 
 fn err(kind: io::ErrorKind) -> io::Error {
+    unsafe {
+        if FS.strict {
+            panic!("model fs (strict mode): an I/O error that the harness did not inject");
+        }
+    }
     io::Error::from(kind)
+}
+
+/// the error returned for a fault that the harness injected through the fault plan
+fn injected_err() -> io::Error {
+    io::Error::from(io::ErrorKind::Other)
+}
+
+pub fn strict(on: bool) {
+    unsafe { FS.strict = on }
 }
 
 fn pstr<P: AsRef<Path>>(p: &P) -> &str {
@@ -170,29 +191,27 @@ fn pstr<P: AsRef<Path>>(p: &P) -> &str {
 }
 
 impl Fs {
+    // Unrolled over the six slots on purpose: no loop, so harness unwind bounds are set by the
+    // repository's loops only.
     pub fn find(&self, path: &str) -> Option<usize> {
         let k = Key::of(path);
-        let mut i = 0;
-        while i < MAX_FILES {
-            if self.files[i].used && self.files[i].key.same(&k) {
-                return Some(i);
-            }
-            i += 1;
-        }
+        if self.files[0].used && self.files[0].key.same(&k) { return Some(0); }
+        if self.files[1].used && self.files[1].key.same(&k) { return Some(1); }
+        if self.files[2].used && self.files[2].key.same(&k) { return Some(2); }
+        if self.files[3].used && self.files[3].key.same(&k) { return Some(3); }
+        if self.files[4].used && self.files[4].key.same(&k) { return Some(4); }
+        if self.files[5].used && self.files[5].key.same(&k) { return Some(5); }
         None
+    }
+    fn dir_is(&self, i: usize, k: &Key) -> bool {
+        match &self.dirs[i] {
+            Some((d, _)) => d.same(k),
+            None => false,
+        }
     }
     pub fn is_dir(&self, path: &str) -> bool {
         let k = Key::of(path);
-        let mut i = 0;
-        while i < MAX_DIRS {
-            if let Some((d, _)) = &self.dirs[i] {
-                if d.same(&k) {
-                    return true;
-                }
-            }
-            i += 1;
-        }
-        false
+        self.dir_is(0, &k) || self.dir_is(1, &k) || self.dir_is(2, &k) || self.dir_is(3, &k) || self.dir_is(4, &k) || self.dir_is(5, &k)
     }
     pub fn exists(&self, path: &str) -> bool {
         self.find(path).is_some() || self.is_dir(path)
@@ -219,25 +238,20 @@ impl Fs {
         let k = self.ops;
         self.ops += 1;
         if self.fail_at == Some(k) {
-            return Err(err(io::ErrorKind::Other));
+            return Err(injected_err());
         }
         Ok(k)
     }
     pub fn create(&mut self, path: &str) -> io::Result<usize> {
         self.step()?;
-        let mut i = 0;
-        while i < MAX_FILES {
-            if !self.files[i].used {
-                self.files[i].used = true;
-                self.files[i].key = Key::of(path);
-                self.files[i].path = String::from(path);
-                self.files[i].len = 0;
-                return Ok(i);
-            }
-            i += 1;
-        }
-        kani::assume(false);
-        Err(err(io::ErrorKind::Other))
+        let i = if !self.files[0].used { 0 } else if !self.files[1].used { 1 } else if !self.files[2].used { 2 }
+            else if !self.files[3].used { 3 } else if !self.files[4].used { 4 } else if !self.files[5].used { 5 }
+            else { kani::assume(false); 0 };
+        self.files[i].used = true;
+        self.files[i].key = Key::of(path);
+        self.files[i].path = String::from(path);
+        self.files[i].len = 0;
+        Ok(i)
     }
     pub fn remove(&mut self, path: &str) -> io::Result<()> {
         match self.find(path) {
@@ -268,17 +282,16 @@ impl Fs {
             kani::assume(false);
         }
         let f = &mut self.files[idx];
-        let mut i = 0;
-        while i < n {
-            f.data[pos + i] = buf[i];
-            i += 1;
-        }
+        // bulk copy (memcpy), not a byte loop: the length of a buffer that went through the heap is
+        // not a constant for CBMC's symbolic execution, and a byte loop would have to be unwound to
+        // the harness bound on every write
+        super::unrolled::copy_unrolled(&mut f.data, pos, buf, 0, n);
         if pos + n > f.len {
             f.len = pos + n;
         }
         if torn {
             self.crashed = true;
-            return Err(err(io::ErrorKind::Other));
+            return Err(injected_err());
         }
         Ok(())
     }
@@ -287,11 +300,8 @@ impl Fs {
         if pos + buf.len() > f.len {
             return Err(err(io::ErrorKind::UnexpectedEof));
         }
-        let mut i = 0;
-        while i < buf.len() {
-            buf[i] = f.data[pos + i];
-            i += 1;
-        }
+        let n = buf.len();
+        super::unrolled::copy_unrolled(buf, 0, &f.data, pos, n);
         Ok(())
     }
     /// "Restart": the process state is gone, the files stay. Clears the crash flag and fault plan.
@@ -305,11 +315,14 @@ impl Fs {
 // ------------------------------------------------------------------------------------------------
 // tokio::fs
 // ------------------------------------------------------------------------------------------------
+/// All fields are `usize` on purpose: a `bool` field would give rustc a niche to encode the
+/// discriminant of `Result<File, io::Error>` inside the struct, and CBMC does not constant-fold values
+/// extracted from niche-encoded enums (measured: every later file lookup became symbolic).
 #[derive(Debug)]
 pub struct File {
     idx: usize,
     pos: usize,
-    append: bool,
+    append: usize,
 }
 
 #[derive(Clone, Debug)]
@@ -323,17 +336,17 @@ pub struct OpenOptions {
 
 pub struct Metadata {
     len: u64,
-    dir: bool,
+    dir: u64, // not bool: see `File`
 }
 impl Metadata {
     pub fn len(&self) -> u64 {
         self.len
     }
     pub fn is_dir(&self) -> bool {
-        self.dir
+        self.dir != 0
     }
     pub fn is_file(&self) -> bool {
-        !self.dir
+        self.dir == 0
     }
 }
 
@@ -379,7 +392,7 @@ impl OpenOptions {
         if self.truncate {
             fs.files[idx].len = 0;
         }
-        Ok(File { idx, pos: 0, append: self.append })
+        Ok(File { idx, pos: 0, append: self.append as usize })
     }
     pub async fn open<P: AsRef<Path>>(&self, path: P) -> io::Result<File> {
         self.open_sync(path)
@@ -406,14 +419,14 @@ impl File {
         Ok(())
     }
     pub fn metadata_sync(&self) -> io::Result<Metadata> {
-        Ok(Metadata { len: fs().files[self.idx].len as u64, dir: false })
+        Ok(Metadata { len: fs().files[self.idx].len as u64, dir: 0 })
     }
     pub async fn metadata(&self) -> io::Result<Metadata> {
         self.metadata_sync()
     }
     pub fn write_all_sync(&mut self, buf: &[u8]) -> io::Result<()> {
         let fs = fs();
-        let pos = if self.append { fs.files[self.idx].len } else { self.pos };
+        let pos = if self.append != 0 { fs.files[self.idx].len } else { self.pos };
         fs.write_at(self.idx, pos, buf)?;
         self.pos = pos + buf.len();
         Ok(())
@@ -458,11 +471,7 @@ impl File {
     pub async fn read_to_end(&mut self, out: &mut Vec<u8>) -> io::Result<usize> {
         let f = &fs().files[self.idx];
         let n = f.len - self.pos;
-        let mut i = 0;
-        while i < n {
-            out.push(f.data[self.pos + i]);
-            i += 1;
-        }
+        out.extend_from_slice(&f.data[self.pos..f.len]);
         self.pos = f.len;
         Ok(n)
     }
@@ -575,10 +584,10 @@ pub async fn metadata<P: AsRef<Path>>(path: P) -> io::Result<Metadata> {
     let p = pstr(&path);
     let fs = fs();
     match fs.find(p) {
-        Some(i) => Ok(Metadata { len: fs.files[i].len as u64, dir: false }),
+        Some(i) => Ok(Metadata { len: fs.files[i].len as u64, dir: 0 }),
         None => {
             if fs.is_dir(p) {
-                Ok(Metadata { len: 0, dir: true })
+                Ok(Metadata { len: 0, dir: 1 })
             } else {
                 Err(err(io::ErrorKind::NotFound))
             }
@@ -648,7 +657,7 @@ impl DirEntry {
         Name { text: String::from(&self.path[start..]) }
     }
     pub async fn metadata(&self) -> io::Result<Metadata> {
-        Ok(Metadata { len: self.len, dir: self.dir })
+        Ok(Metadata { len: self.len, dir: self.dir as u64 })
     }
 }
 
